@@ -413,7 +413,7 @@ pub fn add_call(g: &mut Gen, w: &World, ext: &Ext, totals: &Totals, mb: &mut MB)
 }
 
 /// A non-call instruction with live arguments (worktop, auth zone, proofs): "any instructions".
-pub fn add_instruction(g: &mut Gen, w: &World, ext: &Ext, totals: &Totals, mb: &mut MB) -> &'static str {
+pub fn add_instruction(g: &mut Gen, _w: &World, ext: &Ext, totals: &Totals, mb: &mut MB) -> &'static str {
     let r = g.pick(&ext.resources).clone();
     let res = r.address;
     let fungible = matches!(r.kind, ResKind::Fungible { .. });
